@@ -67,6 +67,7 @@ type sysResult struct {
 	Samples    []string          `json:"samples"`
 	Notes      []string          `json:"notes"`
 	Stats      map[string]string `json:"stats"`
+	Lines      [][2]string       `json:"lines"` // (driver request, implementation answer) for the frac.search channel
 }
 
 type sysMismatch struct {
@@ -451,6 +452,13 @@ func runSysCaseInProcess(c sysCase, dir string) *sysResult {
 		return fa
 	}
 	forms := []formAns{run("active", active, nil)}
+	var mq []modelQuery
+	if c.Shape == "small" && c.OnlyReq < 0 {
+		mq = buildModelQueries(active, rng.Fork(), cor)
+		for i := range mq {
+			mq[i].implActive = answer(active, request{kind: "search", params: mq[i].params})
+		}
+	}
 
 	params := frac.SealParams{IDsZstdLevel: c.Zstd, LIDsZstdLevel: c.Zstd, TokenListZstdLevel: c.Zstd, DocsPositionsZstdLevel: c.Zstd,
 		TokenTableZstdLevel: c.Zstd, DocBlocksZstdLevel: c.Zstd, DocBlockSize: c.DocBlock}
@@ -465,6 +473,13 @@ func runSysCaseInProcess(c sysCase, dir string) *sysResult {
 	csB := newCacheSet(0)
 	sealedB := frac.NewSealedPreloaded(base, pre, readLimiter, csB.index, csB.docs, cfg)
 	forms = append(forms, run("preloaded", sealedB, nil))
+	for _, q := range mq {
+		impl := modelAnswerFormat(q.implActive, q.params.HistInterval > 0)
+		if b := answer(sealedB, request{kind: "search", params: q.params}); b != q.implActive {
+			impl = "forms-differ active[" + trunc(q.implActive) + "] sealed[" + trunc(b) + "]"
+		}
+		res.Lines = append(res.Lines, [2]string{q.line, impl})
+	}
 	active.Release()
 
 	csC := newCacheSet(0)
@@ -538,6 +553,97 @@ func trunc(s string) string {
 		return s[:400] + "..."
 	}
 	return s
+}
+
+// ---------------------------------------------------------------- model queries (frac.search channel)
+
+type modelQuery struct {
+	line       string
+	params     processor.SearchParams
+	implActive string
+}
+
+// modelAnswerFormat turns canonQPR's text into the driver's `ok total=.. ids=.. hist=..`.
+func modelAnswerFormat(a string, hasHist bool) string {
+	if !strings.HasPrefix(a, "total=") {
+		return a
+	}
+	var total string
+	rest := a
+	total, rest, _ = strings.Cut(strings.TrimPrefix(rest, "total="), " ids=")
+	ids, hist, _ := strings.Cut(rest, " hist=")
+	ids = strings.TrimSuffix(strings.TrimSpace(ids), ",")
+	hist = strings.TrimSuffix(strings.TrimSpace(hist), ",")
+	if ids == "" {
+		ids = "-"
+	}
+	if hist == "" || !hasHist {
+		hist = "-"
+	}
+	return fmt.Sprintf("ok total=%s ids=%s hist=%s", total, ids, hist)
+}
+
+func buildModelQueries(active *frac.Active, rng *vh.RNG, cor *corpus) []modelQuery {
+	st := frac.VerifActiveSnapshot(active)
+	type tokRef struct {
+		field, val string
+		tid      int
+	}
+	var toks []tokRef
+	var fparts []string
+	tid := 0
+	for _, f := range st.Fields {
+		var tp []string
+		for i, v := range f.Tokens {
+			tid++
+			tp = append(tp, fmt.Sprintf("x%x=%s", v, fmtU32s(f.Postings[i])))
+			ok := len(v) > 0
+			for _, ch := range v {
+				ok = ok && (ch >= 'a' && ch <= 'z' || ch >= '0' && ch <= '9')
+			}
+			if ok {
+				toks = append(toks, tokRef{f.Name, string(v), tid})
+			}
+		}
+		fparts = append(fparts, strings.Join(tp, ";"))
+	}
+	state := fmt.Sprintf("%s %s %s %s", vh.JoinInts(st.MIDs), vh.JoinInts(st.RIDs), fmtU32s(st.AllDocs), strings.Join(fparts, "|"))
+	var res []modelQuery
+	for k := 0; k < 24; k++ {
+		a, b := toks[rng.Intn(len(toks))], toks[rng.Intn(len(toks))]
+		var qs, rpn string
+		switch k % 4 {
+		case 0:
+			qs, rpn = fmt.Sprintf("%s:%s", a.field, a.val), fmt.Sprintf("t%d", a.tid)
+		case 1:
+			qs, rpn = fmt.Sprintf("%s:%s AND %s:%s", a.field, a.val, b.field, b.val), fmt.Sprintf("t%d,t%d,&", a.tid, b.tid)
+		case 2:
+			qs, rpn = fmt.Sprintf("%s:%s OR %s:%s", a.field, a.val, b.field, b.val), fmt.Sprintf("t%d,t%d,|", a.tid, b.tid)
+		default:
+			qs, rpn = fmt.Sprintf("%s:%s AND NOT %s:%s", a.field, a.val, b.field, b.val), fmt.Sprintf("t%d,t%d,!", b.tid, a.tid)
+		}
+		from, to := uint64(cor.from), uint64(cor.to)
+		switch k % 3 {
+		case 1:
+			from += uint64(rng.Intn(int(to-from)/2 + 1))
+			to = from + uint64(rng.Intn(int(to-from)+1))
+		case 2:
+			from, to = 0, 1<<62
+		}
+		rev := k%2 == 1
+		limit := []int{2, 7, 100000}[k%3]
+		interval := []uint64{0, cor.step * 5, 1700}[(k/2)%3]
+		order := seq.DocsOrderDesc
+		if rev {
+			order = seq.DocsOrderAsc
+		}
+		p := processor.SearchParams{AST: mustParse(qs), From: seq.MID(from), To: seq.MID(to), Limit: limit, WithTotal: true, HistInterval: interval, Order: order}
+		// model block sizes deliberately differ from the real constants: the answer must not depend on them
+		per, lcap, rbs := rng.Range(1, 9), rng.Range(1, 9), []int{16, 64, 16384}[k%3]
+		line := fmt.Sprintf("frac.search %s %d %d %d %s %d %d %s %d %d", state, per, lcap, rbs, rpn, from, to, vh.B(rev), limit, interval)
+		res = append(res, modelQuery{line: line, params: p})
+	}
+	return res
 }
 
 // ---------------------------------------------------------------- seal totality (token block size 0)
@@ -662,6 +768,8 @@ func mismatchSite(m sysMismatch) string {
 	return "frac/sealed_index.go:sealedDataProvider.Search"
 }
 
+var searchChannel *vh.Channel
+
 func collect(orc *vh.Oracle, rep *vh.Report, line string, timeout time.Duration) {
 	r, crash := runChild(line, timeout)
 	if r == nil {
@@ -688,6 +796,11 @@ func collect(orc *vh.Oracle, rep *vh.Report, line string, timeout time.Duration)
 	}
 	for _, n := range r.Notes {
 		rep.Note("%s: %s", line, n)
+	}
+	if searchChannel != nil {
+		for _, l := range r.Lines {
+			searchChannel.Add(l[0], l[1], !strings.Contains(l[1], "total=0 "), "queries")
+		}
 	}
 	if len(r.Stats) > 0 {
 		var ks []string
@@ -728,10 +841,13 @@ func runSystemOracle(o vh.Opts, rng *vh.RNG, rep *vh.Report, tmp string) {
 			cases = append(cases, sysCase{Shape: sh, Seed: int64(rng.U64() >> 2), SkipSort: i%2 == 0, Zstd: zs[(i+1)%4], DocBlock: []int{1024, 0, 256}[i%3], CacheKB: []int{4, 16, 1}[i%3], OnlyReq: -1})
 		}
 	}
+	searchChannel = vh.NewChannel("frac.search", "the real active fraction and the fraction sealed from it (both must agree) vs the model: the active state is read through the sealer's accessors (MIDs, RIDs, all-documents list, sorted fields/tokens/posting lists) and given to sealFrac + search (sealedIndex) and search (activeIndex) with small random ID block sizes, LID capacities and token block sizes (the answer must not depend on them): token, AND, OR, AND NOT queries over existing tokens, time windows, both orders, limits, histogram intervals; compared: total, ids in order, histogram; non-trivial = at least one hit")
 	for _, c := range cases {
 		collect(orc, rep, c.String(), 10*time.Minute)
 	}
 	rep.AddOracle(orc)
+	rep.AddChannel(searchChannel, o.Driver)
+	searchChannel = nil
 
 	tot := vh.NewOracle("c03.seal-total", "sealing must succeed for every token shape the active fraction accepted: N tokens of S bytes in one field (average token longer than one 16 KiB token block makes blockSize = len(tids)/blocksCount = 0); run in a child process; non-trivial = the fraction was sealed and answered like the active one")
 	for _, spec := range []string{"2x8000", "40x100", "3x16385", "2x17000"} {
